@@ -1,5 +1,7 @@
 package c01
 
+import "fmt"
+
 // Scenario statements: small program fragments aimed at the interactions the
 // property statement names (arguments aliasing, with/eval scoping, this
 // binding, hoisting, closures, finally overriding jumps, switch selection).
@@ -609,4 +611,161 @@ func (g *Gen) ScenarioProgram(n int) []N {
 		body = append(body, g.scenario()...)
 	}
 	return body
+}
+
+// ---------------------------------------------------------------------------
+// Family "objects with observable conversion methods under every operator" (8.12.8, 9.1, clause 11):
+// the operands are objects whose valueOf / toString log through the host function H, return a
+// primitive or an object, are absent or not callable, or throw errors of different classes, so
+// WHICH conversions run, in WHICH ORDER relative to each other and to the evaluation of the operand
+// expressions, and WHICH exception wins are part of the observed host-call sequence.  The product:
+//   operator position: every binary operator (arithmetic, shift, bitwise, relational, equality, strict
+//     equality, in, comma, && ||), every compound assignment (to a variable and to a property), unary
+//     + - ~ ! typeof void, ++ -- prefix and postfix (variable and property), the property key of a
+//     read and of an assignment target, the contexts that take ToBoolean (no conversion must run)
+//   x operand shape on each side: scripted object, the same object twice, a primitive, an operand
+//     expression with a host call of its own
+//   x behaviour of valueOf and of toString: returns a number / string / boolean / null / undefined,
+//     returns an object (the other method is tried), absent, not callable, throws an Error of a
+//     given class, throws a primitive.
+// The expected log, result and exception are computed by ES5Core (ToPrim / BinaryOp / UnaryOp).
+
+// convObj: an object literal with scripted conversions; tag names it in the log.
+func (g *Gen) convObj(tag string) N {
+	kv := []any{}
+	method := func(name string, likely int) {
+		ret := func() N {
+			switch g.pick(8) {
+			case 0:
+				return Str([]string{"5", "a", "", "b", "10"}[g.pick(5)])
+			case 1:
+				return Bool(g.chance(50))
+			case 2:
+				return []N{Null(), Undefined()}[g.pick(2)]
+			case 3:
+				return Str([]string{"p", "q"}[g.pick(2)])
+			default:
+				return Num(g.pick(7))
+			}
+		}
+		log := g.hcall(Str(tag + " " + name))
+		x := g.pick(100)
+		switch {
+		case x < likely:
+			kv = append(kv, name, Fn("", nil, log, Return(ret())))
+		case x < likely+8:
+			kv = append(kv, name, Fn("", nil, log, Return(Obj("inner", Num(1)))))
+		case x < likely+16:
+			kv = append(kv, name, Fn("", nil, log, Throw(New(Id([]string{"TypeError", "RangeError", "ReferenceError", "Error", "SyntaxError"}[g.pick(5)]), Str(tag)))))
+		case x < likely+20:
+			kv = append(kv, name, Fn("", nil, log, Throw(Str(tag+" "+name+" thrown"))))
+		case x < likely+24:
+			kv = append(kv, name, []N{Num(1), Null(), Str("not callable"), Obj("z", Num(1))}[g.pick(4)])
+		case x < likely+27:
+			kv = append(kv, name, Fn("", nil, log)) // returns undefined
+		}
+		// otherwise absent: inherited from Object.prototype
+	}
+	if g.chance(50) {
+		method("valueOf", 60)
+		method("toString", 50)
+	} else {
+		method("toString", 50)
+		method("valueOf", 60)
+	}
+	return Obj(kv...)
+}
+
+var convBinOps = []string{"+", "-", "*", "/", "%", "<<", ">>", ">>>", "&", "|", "^", "<", ">", "<=", ">=", "==", "!=", "===", "!==", "&&", "||", ","}
+var convAsgOps = []string{"+", "-", "*", "/", "%", "<<", ">>", ">>>", "&", "|", "^"}
+
+func (g *Gen) scenConvOrder() []N {
+	tag := g.fresh("cv")
+	nObj := 2 + g.pick(2)
+	objs := make([]string, nObj)
+	out := []N{}
+	for i := range objs {
+		objs[i] = g.fresh("co")
+		out = append(out, Var(objs[i], g.convObj(fmt.Sprintf("%s.%d", tag, i))))
+	}
+	tbl := g.fresh("tb")
+	out = append(out, Var(tbl, Obj("5", Str("five"), "a", Str("A"), "p", Num(1), "0", Str("zero"), "true", Num(2), "undefined", Num(3), "null", Num(4))))
+	obj := func() N { return Id(objs[g.pick(len(objs))]) }
+	operand := func() N {
+		switch g.pick(10) {
+		case 0:
+			return g.smallVal()
+		case 1:
+			return Bin(",", Call(Id("H"), Str(tag+" operand")), obj())
+		case 2:
+			return Call(Id("H"), obj()) // a host call that returns its argument
+		default:
+			return obj()
+		}
+	}
+	thrown := func() []N {
+		return []N{g.hcall(Str(tag+" threw"), Un("typeof", Id("e")), Bin("instanceof", Id("e"), Id("TypeError")), Bin("instanceof", Id("e"), Id("RangeError")),
+			Bin("instanceof", Id("e"), Id("Error")), Cond(Bin("===", Un("typeof", Id("e")), Str("string")), Id("e"), Num(0)))}
+	}
+	guard := func(s ...N) N { return Try(s, "e", thrown(), true, nil, false) }
+	probes := 3 + g.pick(4)
+	for i := 0; i < probes; i++ {
+		switch g.pick(20) {
+		case 0, 1, 2, 3, 4, 5, 6:
+			op := convBinOps[g.pick(len(convBinOps))]
+			l := operand()
+			r := operand()
+			if g.chance(10) {
+				r = l // the same object on both sides: converted twice
+			}
+			out = append(out, guard(g.hcall(Str(tag+" "+op), Bin(op, l, r))))
+		case 7, 8:
+			// relational operators in both directions on the same pair (11.8.1-11.8.4 all convert the LEFT operand first)
+			l, r := obj(), obj()
+			op := []string{"<", ">", "<=", ">="}[g.pick(4)]
+			out = append(out, guard(g.hcall(Str(tag+" "+op), Bin(op, l, r))), guard(g.hcall(Str(tag+" "+op+" swapped"), Bin(op, r, l))))
+		case 9, 10:
+			op := convAsgOps[g.pick(len(convAsgOps))]
+			t := g.fresh("ct")
+			out = append(out, Var(t, obj()), guard(g.hcall(Str(tag+" "+op+"="), Asg(op, Id(t), operand()))), g.hcall(Un("typeof", Id(t))))
+		case 11:
+			op := convAsgOps[g.pick(len(convAsgOps))]
+			h := g.fresh("ch")
+			out = append(out, Var(h, Obj("p", obj())), guard(g.hcall(Str(tag+" ."+op+"="), Asg(op, Dot(Id(h), "p"), operand()))), g.hcall(Un("typeof", Dot(Id(h), "p"))))
+		case 12, 13:
+			op := []string{"+", "-", "~", "!", "typeof", "void"}[g.pick(6)]
+			out = append(out, guard(g.hcall(Str(tag+" unary "+op), Un(op, operand()))))
+		case 14:
+			t := g.fresh("ct")
+			op := []string{"++", "--"}[g.pick(2)]
+			out = append(out, Var(t, obj()), guard(g.hcall(Str(tag+" "+op), Upd(op, g.chance(50), Id(t)))), g.hcall(Un("typeof", Id(t)), Cond(Bin("===", Un("typeof", Id(t)), Str("number")), Id(t), Num(0))))
+		case 15:
+			h := g.fresh("ch")
+			op := []string{"++", "--"}[g.pick(2)]
+			out = append(out, Var(h, Obj("p", obj())), guard(g.hcall(Str(tag+" ."+op), Upd(op, g.chance(50), Dot(Id(h), "p")))), g.hcall(Un("typeof", Dot(Id(h), "p"))))
+		case 16:
+			// property key: ToString of the key
+			out = append(out, guard(g.hcall(Str(tag+" key"), Idx(Id(tbl), operand()))))
+		case 17:
+			// assignment target with a computed key, right-hand side with an effect of its own (11.13.1: the reference first)
+			out = append(out, guard(g.hcall(Str(tag+" key ="), Asg("=", Idx(Id(tbl), operand()), Call(Id("H"), Str(tag+" rhs"))))))
+		case 18:
+			out = append(out, guard(g.hcall(Str(tag+" in"), Bin("in", operand(), Id(tbl)))))
+		default:
+			// ToBoolean never converts (9.2)
+			o := obj()
+			switch g.pick(4) {
+			case 0:
+				out = append(out, guard(g.hcall(Str(tag+" ?:"), Cond(o, Num(1), Num(2)))))
+			case 1:
+				out = append(out, guard(If(o, g.hcall(Str(tag+" if true")), g.hcall(Str(tag+" if false")))))
+			case 2:
+				out = append(out, guard(g.hcall(Str(tag+" == null"), Bin("==", o, Null()), Bin("!=", Undefined(), o))))
+			default:
+				k := g.fresh("k")
+				out = append(out, Var(k, Num(0)), guard(While(Bin("&&", o, Bin("<", Upd("++", false, Id(k)), Num(1))), Block(g.hcall(Str(tag+" while"))))))
+			}
+		}
+	}
+	return out
 }
